@@ -222,7 +222,8 @@ def gen_moasha_case(rng):
     grace = rng.choice([1, 1, 2, 3])
     max_t = rng.choice([9, 16, 27, 30, 81])
     brackets = rng.randint(1, 3)
-    prio = rng.choice(["nd", "nd1", "fixed", "linear"])
+    prio = rng.choice(["nd", "nd1", "fixed", "linear", "ndk", "ndk"])
+    max_num_samples = rng.choice([1, 2, 3, 5])
     ntrials = rng.randint(2, 9)
     # event schedule: interleaving of per-trial consecutive reports
     cursors = {t: 0 for t in range(ntrials)}
@@ -237,7 +238,7 @@ def gen_moasha_case(rng):
         cursors[t] += 1
         vals = [float(rng.randint(0, grid)) if grid < 100 else rng.uniform(0, 1) for _ in range(nmet)]
         evs.append((t, cursors[t], vals))
-    return dict(metrics=metrics, mode=mode, rf=rf, grace=grace, max_t=max_t, brackets=brackets, prio=prio,
+    return dict(metrics=metrics, mode=mode, rf=rf, grace=grace, max_t=max_t, brackets=brackets, prio=prio, max_num_samples=max_num_samples,
                 assign={str(k): v for k, v in assign.items()}, evs=evs)
 
 
@@ -262,6 +263,7 @@ def moasha_sequences(ctx, replay):
     for spec in specs:
         nmet = len(spec["metrics"])
         inner = {"nd": lambda: NonDominatedPriority(), "nd1": lambda: NonDominatedPriority(dim=nmet - 1),
+                 "ndk": lambda: NonDominatedPriority(max_num_samples=spec.get("max_num_samples", 2)),
                  "fixed": lambda: FixedObjectivePriority(dim=nmet - 1),
                  "linear": lambda: LinearScalarizationPriority()}[spec["prio"]]()
         rec = RecordingPriority(inner)
@@ -301,13 +303,17 @@ def moasha_sequences(ctx, replay):
                 # among all trials recorded at that rung, itself included, is within the best 1/rf fraction'
                 X = np.array(mat, dtype=float)
                 n = len(mat)
-                if spec["prio"] in ("nd", "nd1"):
+                if spec["prio"] in ("nd", "nd1", "ndk"):
                     layers = brute_layers(X)
                     layer_of = {j: k for k, l in enumerate(layers) for j in l}
                     own = n - 1
                     # rank of own is only determined up to the order inside its layer: bounds
                     lo = sum(len(l) for l in layers[:layer_of[own]])
                     hi = lo + len(layers[layer_of[own]]) - 1
+                    if spec["prio"] == "ndk":
+                        # items cut off by max_num_samples share the lowest priority (= k)
+                        k = spec.get("max_num_samples", 2)
+                        lo, hi = min(lo, k), min(hi, k)
                     must_stop = lo / n > 1 / spec["rf"]
                     must_cont = hi / n <= 1 / spec["rf"]
                 else:
